@@ -13,10 +13,10 @@ Zero(n)   == [i \in 1..n |-> 0]
 IsZeroV(v) == \A i \in DOMAIN v : v[i] = 0
 Unit(n, k) == [i \in 1..n |-> IF i = k THEN 1 ELSE 0]
 
-VAdd(u, v)  == [i \in DOMAIN u |-> u[i] + v[i]]
-VSub(u, v)  == [i \in DOMAIN u |-> u[i] - v[i]]
-VScale(k, v) == [i \in DOMAIN v |-> k * v[i]]
-VNeg(v)     == [i \in DOMAIN v |-> -v[i]]
+VAdd(u, v)  == TLCEval([i \in DOMAIN u |-> u[i] + v[i]])
+VSub(u, v)  == TLCEval([i \in DOMAIN u |-> u[i] - v[i]])
+VScale(k, v) == TLCEval([i \in DOMAIN v |-> k * v[i]])
+VNeg(v)     == TLCEval([i \in DOMAIN v |-> -v[i]])
 
 Dot(u, v) ==
   CASE Len(u) = 1 -> u[1]*v[1]
@@ -43,7 +43,7 @@ FirstNZ(v) == FirstNZFrom(v, 1)                     \* index of first non-zero e
 Primitive(v) ==
   LET g == VGcd(v) IN
   IF g = 0 THEN v
-  ELSE LET s == Sign(v[FirstNZ(v)]) IN [i \in DOMAIN v |-> Quot(s * v[i], g)]
+  ELSE LET s == Sign(v[FirstNZ(v)]) IN TLCEval([i \in DOMAIN v |-> Quot(s * v[i], g)])
 
 \* u and v are scalar multiples of each other (both non-zero is NOT required: zero ~ anything)
 Proportional(u, v) == \A i, j \in DOMAIN u : u[i] * v[j] = u[j] * v[i]
@@ -58,24 +58,24 @@ Classes(n, K) == {v \in NonZero(Lattice(n, K)) : v = Primitive(v)}
 ---------------------------------------------------------------------------
 \* Matrices
 Row(M, i) == M[i]
-Col(M, j) == [i \in DOMAIN M |-> M[i][j]]
-Transpose(M) == [j \in 1..Len(M[1]) |-> [i \in 1..Len(M) |-> M[i][j]]]
-MatVec(M, v) == [i \in DOMAIN M |-> Dot(M[i], v)]
-VecMat(v, M) == [j \in 1..Len(M[1]) |-> Dot(v, Col(M, j))]
-MatMul(A, B) == [i \in DOMAIN A |-> [j \in 1..Len(B[1]) |-> Dot(A[i], Col(B, j))]]
-MatScale(k, M) == [i \in DOMAIN M |-> [j \in DOMAIN M[i] |-> k * M[i][j]]]
-MatAdd(A, B) == [i \in DOMAIN A |-> [j \in DOMAIN A[i] |-> A[i][j] + B[i][j]]]
+Col(M, j) == TLCEval([i \in DOMAIN M |-> M[i][j]])
+Transpose(M) == TLCEval([j \in 1..Len(M[1]) |-> [i \in 1..Len(M) |-> M[i][j]]])
+MatVec(M, v) == TLCEval([i \in DOMAIN M |-> Dot(M[i], v)])
+VecMat(v, M) == TLCEval([j \in 1..Len(M[1]) |-> Dot(v, Col(M, j))])
+MatMul(A, B) == LET Bt == Transpose(B) IN TLCEval([i \in DOMAIN A |-> [j \in DOMAIN Bt |-> Dot(A[i], Bt[j])]])
+MatScale(k, M) == TLCEval([i \in DOMAIN M |-> [j \in DOMAIN M[i] |-> k * M[i][j]]])
+MatAdd(A, B) == TLCEval([i \in DOMAIN A |-> [j \in DOMAIN A[i] |-> A[i][j] + B[i][j]]])
 Ident(n) == [i \in 1..n |-> [j \in 1..n |-> IF i = j THEN 1 ELSE 0]]
 Diag(d)  == [i \in DOMAIN d |-> [j \in DOMAIN d |-> IF i = j THEN d[i] ELSE 0]]
-Outer(u, v) == [i \in DOMAIN u |-> [j \in DOMAIN v |-> u[i] * v[j]]]
-Flatten(M) == [k \in 1..(Len(M) * Len(M[1])) |-> M[((k - 1) \div Len(M[1])) + 1][((k - 1) % Len(M[1])) + 1]]
+Outer(u, v) == TLCEval([i \in DOMAIN u |-> [j \in DOMAIN v |-> u[i] * v[j]]])
+Flatten(M) == TLCEval([k \in 1..(Len(M) * Len(M[1])) |-> M[((k - 1) \div Len(M[1])) + 1][((k - 1) % Len(M[1])) + 1]])
 IsSymmetric(M) == \A i, j \in DOMAIN M : M[i][j] = M[j][i]
 
 \* delete row i and column j
 Minor(M, i, j) ==
   LET n == Len(M) IN
-  [r \in 1..(n - 1) |-> [c \in 1..(n - 1) |->
-      M[IF r < i THEN r ELSE r + 1][IF c < j THEN c ELSE c + 1]]]
+  TLCEval([r \in 1..(n - 1) |-> [c \in 1..(n - 1) |->
+      M[IF r < i THEN r ELSE r + 1][IF c < j THEN c ELSE c + 1]]])
 
 Det2(M) == M[1][1]*M[2][2] - M[1][2]*M[2][1]
 Det3(M) == M[1][1]*(M[2][2]*M[3][3] - M[2][3]*M[3][2])
@@ -92,10 +92,13 @@ Det(M) == CASE Len(M) = 1 -> M[1][1]
             [] Len(M) = 4 -> Det4(M)
             [] Len(M) = 5 -> Det5(M)
 
+\* primitive representative of a matrix class (keeps the integers small along histories)
+MatPrimitive(M) == LET n == Len(M) f == Primitive(Flatten(M)) IN TLCEval([i \in 1..n |-> [j \in 1..n |-> f[(i - 1) * n + j]]])
+
 \* classical adjoint: Adj[i][j] = (-1)^(i+j) * det(minor(j, i))
 Adj(M) == LET n == Len(M) IN
-  [i \in 1..n |-> [j \in 1..n |->
-      (IF (i + j) % 2 = 0 THEN 1 ELSE -1) * Det(Minor(M, j, i))]]
+  TLCEval([i \in 1..n |-> [j \in 1..n |->
+      (IF (i + j) % 2 = 0 THEN 1 ELSE -1) * Det(Minor(M, j, i))]])
 \* cofactor matrix = Adj^T : the action of M on hyperplanes
 Cof(M) == Transpose(Adj(M))
 
